@@ -70,7 +70,7 @@ def canon_json(v):
 GROUPS = ['', '', 'g', 'g:h', 'data', 'xg']
 NAMES = ['up', 'down', 'a', 'b', 'mid', 'x_y', 'train', 'train_x', 'na', 'n']
 NSS = ['n', 'm', 'xn', 'train', 'a', 'ns1']
-KINDS_P = ['json', 'json', 'json', 'numpy', 'pandas', 'generated', 'listnp', 'dir', 'continues', 'memory', 'memfalsy']
+KINDS_P = ['json', 'json', 'json', 'jsontuple', 'numpy', 'pandas', 'generated', 'listnp', 'dir', 'continues', 'memory', 'memfalsy']
 PNAMES = ['pa', 'pb', 'pc', 'pd', 'x', 'lr']
 
 
